@@ -1,9 +1,15 @@
 mod c13;
 mod c23;
+mod pipe;
 
 fn main() {
     let args: Vec<String> = std::env::args().skip(1).collect();
     let id = args.first().cloned().unwrap_or_default();
+    if id == "dump13" {
+        // developer aid: vc-map dump13 FILE.veryl  → SV lines with their map entries
+        c13::dump(&args[1]);
+        return;
+    }
     vcore::quiet_panics();
     let ctx = vcore::Ctx::new(&id, &args[1.min(args.len())..]);
     match id.as_str() {
